@@ -1,0 +1,1 @@
+//! Verification hooks: worker (see verif/mod.rs).
